@@ -52,6 +52,7 @@ class Runtime:
         self.body_hook: Optional[Callable[..., None]] = None
         self.probes: Dict[str, int] = {}
         self.max_branch = 0
+        self.livelock: Optional[str] = None
         self.lock_stats = {"acquire": 0, "contended": 0}
 
     def probe(self, name: str, n: int = 1) -> None:
@@ -686,7 +687,10 @@ def enable_watchdog(cap: int) -> None:
         if _watch["n"] > _watch["cap"] and RT is not None and not RT.sim.abort and RT.sim.me() is not None:
             n = _watch["n"]
             _watch["n"] = 0
-            raise SimLivelock(f"{n} tawazi branch events without a yield in {code.co_name}")
+            msg = f"{n} tawazi branch events without a yield in {code.co_name}"
+            if RT.livelock is None:
+                RT.livelock = msg   # recorded here: the exception itself may be swallowed on its way up (asyncio.gather)
+            raise SimLivelock(msg)
 
     mon.register_callback(_MON_WATCH, mon.events.JUMP, on_branch)
     mon.register_callback(_MON_WATCH, mon.events.BRANCH, on_branch)
